@@ -391,27 +391,35 @@ def metadata_objects(top):
     for key, v in x._dsl.slices.items(): add('slices-registry', v)
   return out
 
+def kind_name(o):
+  from pymtl3.dsl import Component, Interface
+  from pymtl3.dsl.Connectable import Signal, MethodPort
+  return 'Component' if isinstance(o, Component) else 'Interface' if isinstance(o, Interface) else 'MethodPort' if isinstance(o, MethodPort) else 'Signal' if isinstance(o, Signal) else type(o).__name__
+
 def identity_checks(top, mobjs, reach_ids):
-  """objects found in metadata must be THE objects their names evaluate to, and registered slices of their parents"""
+  """objects found in metadata must be reachable objects of the hierarchy, THE objects their names evaluate to, and
+  registered slices of their parents.  returns (failed checks, ids of metadata objects that are not part of the hierarchy)"""
   from pymtl3.dsl.Connectable import Signal
-  bad, seen = [], set()
+  bad, seen, foreign = [], set(), set()
   env = {'s': top}
   for where, o in mobjs:
     if (where, id(o)) in seen: continue
     seen.add((where, id(o)))
     n = repr(o)
+    if id(o) not in reach_ids:
+      foreign.add(id(o))
+      bad.append((f'unreachable-{where}-{kind_name(o)}', f'{kind_name(o)} object named {n} found in {where} is not reachable from top through attributes (not part of the hierarchy)', n))
+      continue
     try: e = eval(n, env)
     except Exception as ex:
       bad.append((f'identity-{where}', f'object {n} found in {where}: eval of its name raises {type(ex).__name__}', n)); continue
     if e is not o:
       bad.append((f'identity-{where}', f'the object named {n} found in {where} is not the object eval({n!r}) returns', n)); continue
-    if id(o) not in reach_ids:
-      bad.append((f'unreachable-{where}', f'object {n} found in {where} is not reachable from top through attributes', n))
     if isinstance(o, Signal) and o._dsl.slice is not None:
       par = o.get_parent_object(); key = (o._dsl.slice.start, o._dsl.slice.stop)
       if par._dsl.slices.get(key) is not o or par.__dict__.get(key) is not o:
         bad.append((f'slice-registry-{where}', f'slice {n} found in {where} is not the registered slice {key} of its parent', n))
-  return bad
+  return bad, foreign
 
 def observe(top, objs):
   from pymtl3.dsl import Component, Interface
@@ -456,6 +464,15 @@ def python_checks(ctx, gname, src, top, obs, post):
         from pymtl3.dsl.NamedObject import NamedObject
         longest = next(p for p in pf if isinstance(eval(p, {'s': top}), NamedObject))
         if longest != pn: bad.append(('parent', f'parent of {n} is reported as {pn} but the enclosing object is {longest}', n))
+    # field name (my_name / _my_name / _my_indices) = the last attribute hop of the name incl. its list indices
+    d_ = o._dsl
+    if o is not top and ob['level'] is not None:
+      fn = o.get_field_name()
+      exp = n[len(ob['parent']) + 1:] if ob['parent'] and n.startswith(ob['parent'] + '.') else None
+      built = getattr(d_, '_my_name', None)
+      if built is not None: built += ''.join(f'[{i}]' for i in (getattr(d_, '_my_indices', None) or ()))
+      if fn != exp or built != exp:
+        bad.append(('field-name', f'field name metadata of {n}: get_field_name() = {fn!r}, _my_name+_my_indices = {built!r}, the name says {exp!r}', n))
     # level
     if ob['level'] is not None and ob['level'] != n.count('.'):
       bad.append(('level', f'level of {n} is {ob["level"]}, name has {n.count(".")} attribute hops', n))
@@ -474,6 +491,43 @@ def python_checks(ctx, gname, src, top, obs, post):
          or (o.is_top_level_signal() != (o is t)):
         bad.append(('top-level-signal', f'top-level signal of {n} is reported as {ob["tls"]}, outermost signal on the path is {sigs[-1:]}', n))
   return bad
+
+def survey(ctx, g, src, top, post, after_replace=False):
+  """all objects of the (current) hierarchy + everything the metadata refers to; returns (observations, failed checks)"""
+  objs = reach(top)
+  bad = realias(g, top, objs)
+  objs = reach(top)                      # (intermediate slices created by the alternative spellings are objects too)
+  mobjs = metadata_objects(top)
+  if after_replace:
+    # whether anything of a REMOVED component is still referenced is property C15's question; here: the names of the living
+    mobjs = [(w, x) for w, x in mobjs if '<deleted>' not in repr(x)]
+  ids = {id(x) for x in objs}
+  b2, foreign = identity_checks(top, mobjs, ids)
+  bad += b2
+  if after_replace:
+    # objects that exist from construction on must all be known to get_all_object_filter
+    known = {id(x) for x in top.get_all_object_filter(lambda x: True)}
+    for x in objs:
+      if getattr(x._dsl, 'level', None) is not None and id(x) not in known:
+        bad.append((f'all-named-objects-missing-{kind_name(x)}', f'{kind_name(x)} {x!r} of the hierarchy is not in get_all_object_filter(True)', repr(x)))
+  obs = observe(top, objs)
+  bad += python_checks(ctx, g.tag, src, top, obs, post)
+  return obs, bad
+
+def replacement_steps(g, top):
+  """positions (by name) at which components are replaced after elaboration, by a fresh instance of the SAME class (so the
+  model tree stays the description of the hierarchy); elements of multi-dimensional lists are preferred"""
+  rng = g.rng
+  comps = sorted((c for c in top.get_all_components() if c is not top), key=repr)
+  if not comps or rng.random() < 0.3: return []
+  wts = [1 + 2 * min(c._dsl.my_name.count('['), 3) ** 2 for c in comps]
+  steps = []
+  for _ in range(rng.choice([1, 1, 2, 3])):
+    if steps and rng.random() < 0.35: n = steps[-1][0]                       # the same position again
+    else: n = repr(rng.choices(comps, wts)[0])
+    if any(n != m and n.startswith(m + '.') for m, _ in steps) and rng.random() < 0.5: continue
+    steps.append((n, rng.choice(['cls', 'obj'])))
+  return steps
 
 def one_design(ctx, g, cases, meta):
   src = g.source()
@@ -497,16 +551,7 @@ def one_design(ctx, g, cases, meta):
     except Exception as e:
       post.remove(n)
       ctx.violation('C14:post-eval', f'{g.tag}: accessing {n} after elaboration raises {type(e).__name__}: {e}', {'design_source': src, 'expression': n})
-  objs = reach(top)
-  bad = realias(g, top, objs)
-  objs = reach(top)                      # (intermediate slices created by the alternative spellings are objects too)
-  mobjs = metadata_objects(top)
-  ids = {id(x) for x in objs}
-  bad += identity_checks(top, mobjs, ids)
-  for where, x in mobjs:                 # repr -> object must be a function over everything any metadata structure refers to
-    if id(x) not in ids: ids.add(id(x)); objs.append(x)
-  obs = observe(top, objs)
-  bad += python_checks(ctx, g.tag, src, top, obs, post)
+  obs, bad = survey(ctx, g, src, top, post)
   for kind, what, n in bad[:4]:
     ctx.violation(f'C14:{kind}', f'{g.tag}: {what}', {'design_source': src, 'object': n, 'post_elaboration_accesses': post})
   # second elaboration of a fresh instance (same code, same post-elaboration accesses): same name set
@@ -519,6 +564,30 @@ def one_design(ctx, g, cases, meta):
     d = sorted(set(n1) ^ set(n2))[:6]
     ctx.violation('C14:re-elaborate', f'{g.tag}: a second elaboration of the same construction code gives a different name set: {d}',
                   {'design_source': src, 'difference': d})
+  # replace components (replace_component / replace_component_with_obj) and check the names of the RESULTING hierarchy
+  steps = replacement_steps(g, top) if hasattr(g, 'rng') else []
+  done = []
+  for n, mode in steps:
+    try:
+      foo = eval(n, {'s': top}); C = type(foo)
+      if mode == 'cls': top.replace_component(foo, C)
+      else: top.replace_component_with_obj(foo, C())
+      done.append([n, mode])
+    except Exception as e:
+      ctx.violation(f'C14:replace-raises-{type(e).__name__}', f'{g.tag}: replacing {n} by a fresh instance of its own class ({mode}) raises {type(e).__name__}: {str(e)[:200]}',
+                    {'design_source': src, 'replacements': done + [[n, mode]], 'traceback': traceback.format_exc()[-1200:]})
+      break
+  if done:
+    obs, bad2 = survey(ctx, g, src, top, [], after_replace=True)
+    seen_k = set()
+    for kind, what, n in bad2:
+      if kind in seen_k or len(seen_k) >= 6: continue
+      seen_k.add(kind)
+      ctx.violation(f'C14:{kind}-after-replace', f'{g.tag}: after replacing {done}: {what}', {'design_source': src, 'object': n, 'replacements': done, 'post_elaboration_accesses': post})
+    ctx.hist['designs-with-replacement'] = ctx.hist.get('designs-with-replacement', 0) + 1
+    for n, mode in done:
+      d = n.rsplit('.', 1)[-1].count('[')
+      ctx.hist[f'replaced-in-{d}d-list' if d else 'replaced-attribute'] = ctx.hist.get(f'replaced-in-{d}d-list' if d else 'replaced-attribute', 0) + 1
   tree = g.coq_node(g.top, g.sinks(g.top))
   ol = coq_list([f'(mkObs "{o["name"]}" {o["kind"]}%nat {cstr(o["parent"])} ' +
                  ('None' if o['level'] is None else f'(Some {o["level"]}%nat)') + f' {cstr(o["host"])} {cstr(o["tls"])})' for o in obs])
